@@ -328,6 +328,14 @@ def run(scn, st):
                                  "order %r entry %s flushes %r: lines delivered once appear %s: extra %r missing %r" %
                                  (perm, op["entry"], op.get("flushes"), "differently", extra[:3], missing[:3]),
                                  entry=op["entry"], what=("extra" if extra else "") + ("missing" if missing else ""))
+        # each H line delivered was taken in once (the one which declares the version too)
+        n_h = sum(1 for ln in lines if ln.split("\t")[0] == "H")
+        n_in = core.call(lambda: g.n_input_header_lines)
+        st.count("oracle.header_lines_counted_once")
+        if n_in.ok and n_in.value not in ((n_h, n_h + 1) if op["entry"] == "header_api" else (n_h,)):
+            raise core.Violation("not-exactly-once", "order %r entry %s: %d H lines were delivered, the Gfa counts %r "
+                                 "input header lines" % (perm, op["entry"], n_h, n_in.value), entry=op["entry"],
+                                 what="header-count")
         if cfg["class"] == "pure" and not any("VN:Z" in ln for ln in lines) and len(perm) % 2 == 0:
             # the version decided by the content cannot be contradicted afterwards through the header either:
             # the header is given the other version (refused), or the Gfa would write a document it refuses to read
